@@ -3,16 +3,24 @@
    Input lines:
      C <cfg> <me> <rh> <more> <bmf> <lip> <relay> <ipme> <qq> <now> <qp>
      A <cfg> <arg> <ok> <addr> <bmf> <allowed>
-     S <cfg> <chunk> <in> <exit> <replies> <nsub> {<from> <rcptto>}                                   -/
+     S <cfg> <chunk> <in> <exit> <replies> <nsub> {<from> <rcptto>} D <ncalls> {<index> <arg>}
+     B <sizeof ssinbuf>
+     F <table> <texts,…> <bufsize> <script> <in> <ret> <ncalls> {<index> <arg>}     commands() called directly
+   Framing: DISAGREE = `SmtpCmdIO.commandsIO` (F) / `SmtpCmdIO.runIO` (S) on the same buffer size and read script vs the C code;
+   ORACLE = the independent splitter of `Nq.Spec.CmdLine` evaluated on the implementation's dispatch trace.                -/
 import Drv.Util
 import Nq.Spec.SmtpPolicy
+import Nq.Spec.SmtpPolicyDoc
+import Nq.Spec.CmdLine
+import Nq.SmtpCmdIO
 
-open Nq Nq.SmtpIn Nq.SmtpSession Nq.SmtpPolicy Drv
+open Nq Nq.SmtpIn Nq.SmtpSession Nq.SmtpPolicy Nq.SmtpPolicyDoc Nq.CmdLineSpec Nq.SmtpCmdIO Drv
 
 structure DState where
   cfgid : String := ""
   cfg : Cfg := {}
   qq : QQ := {}
+  bufsize : Nat := 1024
 
 def optHex (s : String) : Option (Option Bytes) := if s == "!" then some none else (unhex s).map some
 
@@ -57,28 +65,31 @@ def decRcpts : Bytes → Bytes → List Bytes
   | [], cur => if cur.isEmpty then [] else [cur.reverse]
   | c :: r, cur => if c = NUL then (cur.reverse.drop 1) :: decRcpts r [] else decRcpts r (c :: cur)
 
-/-- rebuild the implementation's trace from the input, its replies and its envelopes.
-Returns the events and the envelopes no DATA accounted for. -/
-partial def rebuild (cfg : Cfg) (inp : Bytes) (gs : List Bytes) (envs : List (Bytes × Bytes)) (acc : List Ev) :
-    List Ev × List (Bytes × Bytes) :=
-  match readLine inp, gs with
+/-- rebuild the implementation's trace from the input, its replies and its envelopes, cutting the input into
+lines / verbs / arguments with the *independent* splitter of `Nq.Spec.CmdLine` (DATA bodies with the C05 reference
+decoder).  Returns the events, the envelopes no DATA accounted for, and the (table index, argument) of every line
+taken as a command. -/
+partial def rebuild (cfg : Cfg) (inp : Bytes) (gs : List Bytes) (envs : List (Bytes × Bytes)) (acc : List Ev)
+    (calls : List (Nat × Bytes)) : List Ev × List (Bytes × Bytes) × List (Nat × Bytes) :=
+  match specFirstLine inp, gs with
   | some (l, rest), g :: gs' =>
     let code := groupCode g
     let ev (c : Cmd) (r : Reply) : Ev := (c, { replies := [r] })
-    match (parseLine l).1 with
-    | .helo => rebuild cfg rest gs' envs (acc ++ [ev .helo .helo])
-    | .ehlo => rebuild cfg rest gs' envs (acc ++ [ev .ehlo .ehlo])
-    | .rset => rebuild cfg rest gs' envs (acc ++ [ev .rset .flushed])
-    | .help => rebuild cfg rest gs' envs (acc ++ [ev .help .help])
-    | .noop => rebuild cfg rest gs' envs (acc ++ [ev .noop .noop])
-    | .vrfy => rebuild cfg rest gs' envs (acc ++ [ev .vrfy .vrfy])
-    | .unimpl => rebuild cfg rest gs' envs (acc ++ [ev .unimpl .unimpl])
-    | .quit => (acc ++ [(.quit, { replies := [.quit], halt := true })], envs)
-    | .mail => rebuild cfg rest gs' envs (acc ++ [ev (.mail (parseLine l).2) (if code = str "250" then .mailok else .syntax)])
+    let calls := calls ++ [(specIdx smtpTexts (specSplit l).1, (specSplit l).2)]
+    match (specParse l).1 with
+    | .helo => rebuild cfg rest gs' envs (acc ++ [ev .helo .helo]) calls
+    | .ehlo => rebuild cfg rest gs' envs (acc ++ [ev .ehlo .ehlo]) calls
+    | .rset => rebuild cfg rest gs' envs (acc ++ [ev .rset .flushed]) calls
+    | .help => rebuild cfg rest gs' envs (acc ++ [ev .help .help]) calls
+    | .noop => rebuild cfg rest gs' envs (acc ++ [ev .noop .noop]) calls
+    | .vrfy => rebuild cfg rest gs' envs (acc ++ [ev .vrfy .vrfy]) calls
+    | .unimpl => rebuild cfg rest gs' envs (acc ++ [ev .unimpl .unimpl]) calls
+    | .quit => (acc ++ [(.quit, { replies := [.quit], halt := true })], envs, calls)
+    | .mail => rebuild cfg rest gs' envs (acc ++ [ev (.mail (specParse l).2) (if code = str "250" then .mailok else .syntax)]) calls
     | .rcpt =>
       let r : Reply := if code = str "250" then .rcptok else if code = str "503" then .wantmail
         else if code = str "555" then .syntax else if g = render cfg .bmf then .bmf else .nogateway
-      rebuild cfg rest gs' envs (acc ++ [ev (.rcpt (parseLine l).2) r])
+      rebuild cfg rest gs' envs (acc ++ [ev (.rcpt (specParse l).2) r]) calls
     | .data =>
       if code = str "354" then
         match rfcDecode rest with
@@ -89,14 +100,25 @@ partial def rebuild (cfg : Cfg) (inp : Bytes) (gs : List Bytes) (envs : List (By
             let (sub, envs') := match envs with
               | (f, r) :: es => (some (Submit.mk f (decRcpts r []) qqx), es)
               | [] => (none, [])
-            rebuild cfg rest' gs'' envs' (acc ++ [(.data { close := qqx }, { replies := [.go, closeReply qqx], submit := sub })])
-          | [] => (acc ++ [(.data {}, { replies := [.go], halt := true })], envs)
-        | .stray => (acc ++ [(.data { blast := .stray }, { replies := [.go, .stray], halt := true })], envs)
-        | .incomplete => (acc ++ [(.data { blast := .eof }, { replies := [.go], halt := true })], envs)
+            rebuild cfg rest' gs'' envs' (acc ++ [(.data { close := qqx }, { replies := [.go, closeReply qqx], submit := sub })]) calls
+          | [] => (acc ++ [(.data {}, { replies := [.go], halt := true })], envs, calls)
+        | .stray => (acc ++ [(.data { blast := .stray }, { replies := [.go, .stray], halt := true })], envs, calls)
+        | .incomplete => (acc ++ [(.data { blast := .eof }, { replies := [.go], halt := true })], envs, calls)
       else
         let r : Reply := if g = render cfg .wantrcpt then .wantrcpt else if code = str "503" then .wantmail else .qqt
-        rebuild cfg rest gs' envs (acc ++ [ev (.data { openFails := r == .qqt }) r])
-  | _, _ => (acc, envs)
+        rebuild cfg rest gs' envs (acc ++ [ev (.data { openFails := r == .qqt }) r]) calls
+  | _, _ => (acc, envs, calls)
+
+def parseCalls : List String → Option (List (Nat × Bytes))
+  | [] => some []
+  | i :: a :: r => do
+    let i ← i.toNat?
+    let a ← unhex a
+    let t ← parseCalls r
+    some ((i, a) :: t)
+  | _ => none
+
+def showCalls (cs : List (Nat × Bytes)) : String := ",".intercalate (cs.map (fun c => s!"{c.1}:{hex c.2}"))
 
 def showOpt (o : Option Bytes) : String := match o with | some b => hex b | none => "!"
 
@@ -130,6 +152,8 @@ def handleA (ds : DState) (st : Stats) (cfgid argh okS addrh bmfS allowedS : Str
         else if addr != expected then some s!"address left by addrparse (quoting, source route, localiphost replacement): expected {hex expected}"
         else if (bmfS == "1") != badSenderB cfg addr then some s!"bad-sender verdict, spec={badSenderB cfg addr}"
         else if (allowedS == "1") != matchSpecB cfg addr then some s!"rcpthosts verdict, spec={matchSpecB cfg addr}"
+        else if (bmfS == "1") != badSenderDocB cfg addr then some s!"bad-sender verdict, documented rule={badSenderDocB cfg addr}"
+        else if (allowedS == "1") != rcptHostOKB cfg addr then some s!"rcpthosts verdict, documented rule={rcptHostOKB cfg addr}"
         else none
       else if okS == "0" then
         if expected.length + 1 > addrLimit then none else some "address within the limit was refused"
@@ -152,9 +176,13 @@ def pairs : List String → Option (List (Bytes × Bytes))
     some ((x, y) :: t)
   | _ => none
 
-def handleS (ds : DState) (st : Stats) (cfgid chunk inh exitS replyh nsubS : String) (rest : List String) : IO Stats := do
-  match unhex inh, unhex replyh, pairs rest with
-  | some inp, some replies, some envs =>
+def handleS (ds : DState) (st : Stats) (cfgid chunk inh exitS replyh nsubS : String) (rest0 : List String) : IO Stats := do
+  let (rest, dpart) := rest0.span (· != "D")
+  let icalls : Option (List (Nat × Bytes)) := match dpart with
+    | _ :: n :: cs => (parseCalls cs).bind (fun l => if n.toNat? == some l.length then some l else none)
+    | _ => none
+  match unhex inh, unhex replyh, pairs rest, icalls with
+  | some inp, some replies, some envs, some icalls =>
     let cfg := ds.cfg
     let h := hashBytes (inp ++ [0] ++ ds.cfgid.toUTF8.toList)
     let fresh := !st.seen.contains h
@@ -176,13 +204,26 @@ def handleS (ds : DState) (st : Stats) (cfgid chunk inh exitS replyh nsubS : Str
       let ms := " ".intercalate (msubs.map (fun s => s!"{hex s.sender} {hex (encRcpts s.rcpts)}"))
       IO.println s!"DISAGREE mode=S cfg={cfgid} chunk={chunk} in={inh} impl={exitS} {replyh} {nsubS} {" ".intercalate rest} model={mexit} {hex mreply} {msubs.length} {ms}"
       st := { st with disagree := st.disagree + 1 }
+    -- the session over substdio: same buffer size, same read sizes as the harness's timeoutread
+    let rs : List Nat := match chunk.toNat? with
+      | some 0 => []
+      | some k => List.replicate (inp.length + 2) k
+      | none => []
+    let trIO := runIO cfg ds.qq (SmtpIO.istart ds.bufsize inp rs)
+    if trIO != tr then
+      IO.println s!"DISAGREE mode=S cfg={cfgid} chunk={chunk} in={inh} what=runIO_over_substdio_differs_from_the_C_session events={trIO.length} vs {tr.length}"
+      st := { st with disagree := st.disagree + 1 }
     -- oracle: the sequencing and gating predicates on the implementation's own trace
     let gs := replyGroups (replyLines [] replies) []
-    let (itr, left) := match gs with
-      | _banner :: gs' => rebuild cfg inp gs' envs []
-      | [] => ([], envs)
+    let (itr, left, scalls) := match gs with
+      | _banner :: gs' => rebuild cfg inp gs' envs [] []
+      | [] => ([], envs, [])
     let bad : Option String :=
       if !left.isEmpty then some s!"{left.length} envelope(s) handed to the queue without a DATA answered 354"
+      else if icalls != scalls then
+        some s!"commands() dispatched {showCalls icalls} but the lines of the input (message bodies skipped) split by the spec are {showCalls scalls}"
+      else if let some i := traceBadDoc cfg [] itr 0 then
+        some s!"command #{i} RCPT: the answer is not the one the documented badmailfrom/rcpthosts/RELAYCLIENT rules give"
       else match traceBad cfg [] itr 0 with
         | some i =>
           match itr[i]? with
@@ -200,13 +241,64 @@ def handleS (ds : DState) (st : Stats) (cfgid chunk inh exitS replyh nsubS : Str
       IO.println s!"SAMPLE mode=S cfg={cfgid} chunk={chunk} in={inh} replies={replyh} envelopes={",".intercalate rest}"
       st := { st with samples := st.samples + 1 }
     return st
-  | _, _, _ => IO.println s!"DISAGREE unparsable S line"; return { st with disagree := st.disagree + 1 }
+  | _, _, _, _ => IO.println s!"DISAGREE unparsable S line"; return { st with disagree := st.disagree + 1 }
+
+/-- bytes the scripted descriptor hands over before its first failing read (`none`: no failing read is reached) -/
+def deliveredBeforeError (total req : Nat) : List Nat → Nat → Option Nat
+  | [], _ => none
+  | 0 :: _, acc => some acc
+  | k :: rs, acc => if acc ≥ total then none else deliveredBeforeError total req rs (acc + min (min k req) (total - acc))
+
+def handleF (st : Stats) (tbl textsS bufS scriptS inh retS ncS : String) (rest : List String) : IO Stats := do
+  let texts? : Option (List Bytes) := (textsS.splitOn ",").mapM unhex
+  match texts?, bufS.toNat?, unhex scriptS, unhex inh, parseCalls rest with
+  | some texts, some buf, some script, some inp, some calls =>
+    let rs := script.map (·.toNat)
+    let h := hashBytes (inp ++ [0] ++ script ++ [0] ++ (tbl ++ bufS).toUTF8.toList)
+    let fresh := !st.seen.contains h
+    let nontriv := calls.length ≥ 1
+    let mut st := { st with cases := st.cases + 1, seen := st.seen.insert h,
+                            nontrivial := st.nontrivial + (if fresh && nontriv then 1 else 0) }
+    st := st.bump ("F_table" ++ tbl)
+    st := st.bump ("F_buf" ++ (if buf ≤ 1 then "1" else if buf ≤ 16 then "2-16" else "big"))
+    st := st.bump ("F_ret" ++ retS)
+    if inp.length ≥ 1000 then st := st.bump "F_long"
+    let m := commandsIO texts (SmtpIO.istart buf inp rs)
+    let mret := match m.2 with | .eof => "0" | .err => "-1"
+    let mut dis : Option String := none
+    if tbl == "0" && texts != smtpTexts then dis := some "the texts of smtpcommands[] are not those of Gen.smtpCommands"
+    else if m.1 != calls || mret != retS || ncS.toNat? != some calls.length then
+      dis := some s!"model={mret} {showCalls m.1}"
+    if let some why := dis then
+      IO.println s!"DISAGREE mode=F table={tbl} buf={bufS} script={scriptS} in={inh} impl={retS} {showCalls calls} {why.replace " " "_"}"
+      st := { st with disagree := st.disagree + 1 }
+    -- oracle: the independent splitter on what the descriptor delivered
+    let req := if buf ≤ 1 then 1 else buf
+    let bad : Option String :=
+      match deliveredBeforeError inp.length req rs 0 with
+      | none =>
+        if calls != specCalls texts inp then some s!"calls are not the LF-terminated lines split as the spec says: expected {showCalls (specCalls texts inp)}"
+        else if retS != "0" then some "end of input must return 0"
+        else none
+      | some k =>
+        if calls != specCalls texts (inp.take k) then
+          some s!"calls are not the complete lines among the {k} bytes read before the failing read: expected {showCalls (specCalls texts (inp.take k))}"
+        else if retS != "-1" then some "a failing read must return -1"
+        else none
+    if let some why := bad then
+      IO.println s!"ORACLE mode=F table={tbl} buf={bufS} script={scriptS} in={inh} ret={retS} calls={showCalls calls} why={why.replace " " "_"}"
+      st := { st with oracle := st.oracle + 1 }
+    if fresh && st.samples < 6 && st.samples ≥ 4 && calls.length ≥ 3 && script.length ≥ 2 && inp.contains NUL then
+      IO.println s!"SAMPLE mode=F table={tbl} buf={bufS} script={scriptS} in={inh} ret={retS} calls={showCalls calls}"
+      st := { st with samples := st.samples + 1 }
+    return st
+  | _, _, _, _, _ => IO.println s!"DISAGREE unparsable F line"; return { st with disagree := st.disagree + 1 }
 
 def handle (ref : IO.Ref DState) (st : Stats) (line : String) : IO Stats := do
   match fields line with
   | "C" :: rest =>
     match parseCfg rest with
-    | some ds => ref.set ds; return st.bump "configs"
+    | some ds => ref.set { ds with bufsize := (← ref.get).bufsize }; return st.bump "configs"
     | none => IO.println s!"DISAGREE unparsable C line {line}"; return { st with disagree := st.disagree + 1 }
   | ["A", cfgid, argh, okS, addrh, bmfS, allowedS] =>
     let ds ← ref.get
@@ -218,6 +310,11 @@ def handle (ref : IO.Ref DState) (st : Stats) (line : String) : IO Stats := do
     if ds.cfgid != cfgid then
       IO.println s!"DISAGREE case for configuration {cfgid} without its C line"; return { st with disagree := st.disagree + 1 }
     handleS ds st cfgid chunk inh exitS replyh nsubS rest
+  | ["B", n] =>
+    match n.toNat? with
+    | some k => ref.modify (fun ds => { ds with bufsize := k }); return st
+    | none => IO.println s!"DISAGREE unparsable B line"; return { st with disagree := st.disagree + 1 }
+  | "F" :: tbl :: texts :: buf :: script :: inh :: ret :: nc :: rest => handleF st tbl texts buf script inh ret nc rest
   | [] => return st
   | _ => IO.println s!"DISAGREE unparsable line {line.take 200}"; return { st with disagree := st.disagree + 1 }
 
